@@ -345,6 +345,10 @@ def handshakes(rng):
     pl, files, n, plens = geo(gname)
     peers = [peer(0, set(range(n)), serve='good'), peer(1, set(), serve='none'), peer(2, set(), serve='none')]
     peers[2]['listen'] = True
+    # the id the tracker announces for the peer we dial need not be text; a wrong id may differ from it in one byte only
+    binid = b'-XX0002-' + bytes([0xff, 0x80, 0xfe, 0x00, 0xc3, 0x28, 0x41, 0xf0, 0x9f, 0x98, 0x80, 0x7f])
+    if rng.random() < 0.6:
+        peers[2]['id_hex'] = binid.hex()
     steps = []
     seeded = rng.random() < 0.7
     if seeded:
@@ -366,6 +370,10 @@ def handshakes(rng):
             h['ih'] = other
         if kind == 'badid':
             h['id'] = wrong_id
+            if j == 2 and 'id_hex' in peers[2] and rng.random() < 0.7:
+                near = bytearray(binid)
+                near[rng.choice([8, 9, 10])] ^= 0x01          # 0xff -> 0xfe, 0x80 -> 0x81, 0xfe -> 0xff
+                h['id'] = bytes(near).hex()
         if kind == 'badpstr':
             h['pstr'] = b'BitTorrent protocoL'.hex()
         if kind == 'short':
@@ -738,6 +746,16 @@ def slots(rng):
     for j in range(k):
         steps += [{'op': 'connect', 'peer': j}, send(j, hs()), {'op': 'rates', 'peer': j, 'dl': rng.randrange(10), 'ul': rng.randrange(10)},
                   send(j, bf(peers[j]['has'])), send(j, fr('Interested'))]
+    if rng.random() < 0.5:
+        # a seeder delivers everything while all the others stay connected: from now on the client owns every piece
+        # and ranks its peers by the other rate; the two rates order the peers in opposite ways
+        peers.append(peer(k, set(range(n)), serve='good'))
+        # (it declares interest, so the client keeps the connection when the download is complete: nobody disconnects)
+        steps += [{'op': 'connect', 'peer': k}, send(k, hs(), bf(range(n))), {'op': 'rates', 'peer': k, 'dl': 0, 'ul': 0}, send(k, fr('Interested')),
+                  send(k, fr('Unchoke')), {'op': 'advance', 'ms': 300}]
+        for j in range(k):
+            r = rng.randrange(20)
+            steps.append({'op': 'rates', 'peer': j, 'dl': r, 'ul': 20 - r})
     for rnd in range(rng.choice([7, 8, 10])):
         steps.append({'op': 'advance', 'ms': 10000, 'slice': 2500})
         for _ in range(rng.randint(0, 3)):
@@ -880,6 +898,8 @@ def orphaned(rng):
     late_c = rng.random() < 0.5
     if not late_c:
         steps += [{'op': 'connect', 'peer': 2}, send(2, hs(), bf(set(range(n)) - {x})), send(2, fr('Unchoke')), {'op': 'advance', 'ms': 300}]
+    if rng.random() < 0.5:
+        steps.append(send(0, fr('Choke')))                  # it chokes us first, then goes away
     steps += [{'op': 'close', 'peer': 0}, {'op': 'advance', 'ms': 100}]
     if late_c:
         steps += [{'op': 'connect', 'peer': 2}, send(2, hs(), bf(set(range(n)) - {x})), send(2, fr('Unchoke'))]
